@@ -614,6 +614,21 @@ func badMutInputAtomicMemo(b *memoBox, h *hdr) *hdr {
 	return h
 }
 
+type memoSel struct{ bad sync.Map }
+
+func badMutInputSyncMapMemo(m *memoSel, gen uint) error {
+	if e, ok := m.bad.Load(gen); ok {
+		return e.(error)
+	}
+	m.bad.Store(gen, errors.New("x"))
+	return nil
+}
+
+func okMutInputSyncMapLoadOnly(m *memoSel, gen uint) bool {
+	_, ok := m.bad.Load(gen)
+	return ok
+}
+
 func okMutInputAtomicLoadOnly(b *memoBox) int64 { return b.n.Load() }
 
 // structs of library types are tracked per allocation site: one client address in one net.UDPAddr does not make
